@@ -19,6 +19,7 @@ func C19(c *Ctx) {
 	c.c19Whitelist()
 	c.c19Rules()
 	c.readerVerbatim("C19.reader")
+	c.charClasses("C19.classes")
 }
 
 func (c *Ctx) c19Post() {
